@@ -544,6 +544,12 @@ class AnsiString:
                     matches.append((i, i2))
         return matches
 
+    @staticmethod
+    def _same_order(refs:List[AnsiSetting], in_list:List[AnsiSetting]) -> bool:
+        ''' Returns True iff the given references appear in in_list in the same relative order '''
+        positions = [__class__._find_setting_reference(s, in_list) for s in refs]
+        return positions == sorted(positions)
+
     def _slice_val_to_idx(self, val:int, default:int) -> int:
         '''
         Converts a slice start or stop value to a real index into my string
@@ -1040,6 +1046,7 @@ class AnsiString:
                     key == shift
                     and settings.add
                     and self._fmts[key].rem[:len(settings.add)] == settings.add
+                    and __class__._same_order(self._fmts[key].rem[:len(settings.add)], self.ansi_settings_at(shift - 1))
                 ):
                     # Special case - the string being added contains same formatting as end of my string.
                     # Because the settings work based on references instead of values, the settings not only
